@@ -199,15 +199,38 @@ func isPanic(in ssa.Instruction) bool  { _, ok := in.(*ssa.Panic); return ok }
 // function entry when from==nil) that reaches an instruction satisfying `target`
 // without first executing an instruction satisfying `cut`? Returns the target
 // reached, or nil. `cut` is tested before `target` on each instruction.
+//
+// A call to an unexported helper of the module in which every path to a return executes a
+// cut instruction is itself a cut (the wrapper rule: a helper that always takes the lock
+// takes the lock). Predicates that name instructions of fn by identity are simply false
+// inside the helper, which then is no cut, as before.
 func pathAvoiding(fn *ssa.Function, from ssa.Instruction, target, cut func(ssa.Instruction) bool) ssa.Instruction {
+	return pathAvoidingD(fn, from, target, cut, 0)
+}
+
+func pathAvoidingD(fn *ssa.Function, from ssa.Instruction, target, cut func(ssa.Instruction) bool, depth int) ssa.Instruction {
 	if fn == nil || len(fn.Blocks) == 0 {
 		return nil
+	}
+	wrapperCuts := func(in ssa.Instruction) bool {
+		if depth >= 2 {
+			return false
+		}
+		c, ok := in.(*ssa.Call)
+		if !ok {
+			return false
+		}
+		h := c.Call.StaticCallee()
+		if h == nil || h == fn || !inRepo(h) || !isPrivateHelper(h) || len(h.Blocks) == 0 {
+			return false
+		}
+		return pathAvoidingD(h, nil, func(x ssa.Instruction) bool { return isReturn(x) && x.Block() != h.Recover }, cut, depth+1) == nil
 	}
 	// scan returns (found, blocked)
 	scan := func(b *ssa.BasicBlock, i int) (ssa.Instruction, bool) {
 		for ; i < len(b.Instrs); i++ {
 			in := b.Instrs[i]
-			if cut != nil && cut(in) {
+			if cut != nil && (cut(in) || wrapperCuts(in)) {
 				return nil, true
 			}
 			if target(in) {
@@ -475,7 +498,14 @@ func fieldName(t types.Type, i int) string {
 		t = p.Elem()
 	}
 	if s, ok := t.Underlying().(*types.Struct); ok && i < s.NumFields() {
-		return s.Field(i).Name()
+		n := s.Field(i).Name()
+		if len(fieldAliases) > 0 {
+			// a field renamed since the pinned tree answers to its pinned name (names.go)
+			if a, ok := fieldAliases[shortName(types.TypeString(t, nil))+"."+n]; ok {
+				return a
+			}
+		}
+		return n
 	}
 	return fmt.Sprintf("f%d", i)
 }
@@ -649,4 +679,84 @@ func siteKey(fn *ssa.Function, what string, n int) string {
 // sortCallsByPos orders call sites by position for stable numbering.
 func sortCallsByPos(cs []ssa.CallInstruction) {
 	sort.SliceStable(cs, func(i, j int) bool { return instrPos(cs[i]) < instrPos(cs[j]) })
+}
+
+// onlyReachedThrough: every chain of callers of f passes through a function named in allowed
+// before it leaves the module's unexported functions: f's callers are allowed functions, or
+// unexported module functions (closures count as their enclosing function) of which the same
+// holds. A who-may-call rule stated with it accepts a site moved into a private helper of the
+// allowed function and still rejects a new entry point. bad names the offending chain.
+func (p *Prog) onlyReachedThrough(f *ssa.Function, allowed map[string]bool) (ok bool, bad string) {
+	seen := map[*ssa.Function]bool{}
+	var visit func(g *ssa.Function, chain string) (bool, string)
+	visit = func(g *ssa.Function, chain string) (bool, string) {
+		for g.Parent() != nil {
+			g = g.Parent()
+		}
+		if allowed[fnName(g)] {
+			return true, ""
+		}
+		if seen[g] {
+			return true, ""
+		}
+		seen[g] = true
+		if !isPrivateHelper(g) {
+			return false, chain
+		}
+		for _, e := range p.callersOf(g) {
+			cf := e.Caller.Func
+			if ok, b := visit(cf, chain+" ← "+fnName(cf)); !ok {
+				return false, b
+			}
+		}
+		return true, ""
+	}
+	for _, e := range p.callersOf(f) {
+		cf := e.Caller.Func
+		if ok, b := visit(cf, fnName(f)+" ← "+fnName(cf)); !ok {
+			return false, b
+		}
+	}
+	return true, ""
+}
+
+// hostView: a function as a place where a rule looks for its sites — fn itself, or an unexported
+// helper it calls, with the helper's parameters standing for the arguments of that call. A rule
+// written over views accepts `e.replacePrefix(e.compLine, e.compCursor)` for the statements the
+// helper now holds: val maps the helper's `cursor` back to the caller's `e.compCursor`.
+type hostView struct {
+	fn   *ssa.Function
+	at   ssa.CallInstruction // the call in the outer function (nil for the function itself)
+	bind map[*ssa.Parameter]ssa.Value
+}
+
+func (hv hostView) val(v ssa.Value) ssa.Value {
+	if prm, ok := v.(*ssa.Parameter); ok {
+		if a, ok := hv.bind[prm]; ok {
+			return a
+		}
+	}
+	return v
+}
+
+func hostViews(f *ssa.Function) []hostView {
+	out := []hostView{{fn: f}}
+	for _, cl := range allCalls(f, false) {
+		if _, isCall := cl.(*ssa.Call); !isCall {
+			continue
+		}
+		h := staticCallee(cl)
+		if h == nil || h == f || !inRepo(h) || !isPrivateHelper(h) || len(h.Blocks) == 0 {
+			continue
+		}
+		hv := hostView{fn: h, at: cl, bind: map[*ssa.Parameter]ssa.Value{}}
+		args := cl.Common().Args
+		for i, prm := range h.Params {
+			if i < len(args) {
+				hv.bind[prm] = args[i]
+			}
+		}
+		out = append(out, hv)
+	}
+	return out
 }
